@@ -48,11 +48,11 @@ def settled(arn):
     return until
 
 
-def run(case, schedule, crashes=(), seed=0):
+def run(case, schedule, crashes=(), seed=0, store="file"):
     """-> dict(outcome, terminals, requests, steps, ops, in_progress, exceptions, quiescent, unacked, ready)"""
     from .. import world as W
     from .. import harness as H
-    w = W.World(seed=seed, tick=1e-6, orphan_retention_ms=600000, execution_ttl=TTL)
+    w = W.World(seed=seed, tick=1e-6, orphan_retention_ms=600000, execution_ttl=TTL, store=store)
     out = {}
     try:
         eng = w.add_engine("A")
@@ -169,10 +169,10 @@ def judge(case, base, got, crashes):
 def evaluate(c):
     """c: dict(definition,input,oracle,type,schedule,crashes) -> (fails, nontrivial, info)"""
     case = {k: c[k] for k in ("definition", "input", "oracle", "type")}
-    base = run(case, c["schedule"], ())
+    base = run(case, c["schedule"], (), store=c.get("store", "file"))
     if base["exceptions"] or not base["quiescent"]:
         return [], False, {"skipped": "baseline not clean"}
-    got = run(case, c["schedule"], c["crashes"])
+    got = run(case, c["schedule"], c["crashes"], store=c.get("store", "file"))
     fails, nt = judge(case, base, got, c["crashes"])
     return fails, nt, {"baseline": base["outcome"], "with_crash": got["outcome"], "steps": base["steps"], "ops": base["ops"]}
 
@@ -189,12 +189,12 @@ def shard(k, seed, tier, examples=40):
     @hypothesis.seed(seed)
     @settings(max_examples=examples, deadline=None, database=None, suppress_health_check=list(HealthCheck), phases=[Phase.generate])
     @given(st.one_of(S.cases_with_schedules(CFG_SEQ, max_sched=30, multi=False), S.cases_with_schedules(CFG_SEQ, max_sched=30, multi=False), S.cases_with_schedules(CFG, max_sched=30, multi=False)),
-           crashes, st.integers(0, 10 ** 6))
-    def go(t, cr, salt):
+           crashes, st.integers(0, 10 ** 6), st.sampled_from(["file", "file", "redis"]))
+    def go(t, cr, salt, store):
         case, sched, starts = t
-        c = {"definition": case["definition"], "input": case["input"], "oracle": case["oracle"], "type": case["type"], "schedule": sched, "crashes": cr}
+        c = {"definition": case["definition"], "input": case["input"], "oracle": case["oracle"], "type": case["type"], "schedule": sched, "crashes": cr, "store": store}
         try:
-            base = run(case, sched, ())
+            base = run(case, sched, (), store=store)
             if base["exceptions"] or not base["quiescent"]:
                 camp.count("baseline-not-clean")
                 return
@@ -208,7 +208,7 @@ def shard(k, seed, tier, examples=40):
                     x["n"] = 1 + (x["n"] * 13 + salt) % max(1, base["ops"])
                 cr2.append(x)
             c["crashes"] = cr2
-            got = run(case, sched, cr2)
+            got = run(case, sched, cr2, store=store)
             fails, nt = judge(case, base, got, cr2)
         except HarnessError as e:
             camp.harness_error("%s in %s" % (e, json.dumps(c)[:500]))
@@ -217,7 +217,7 @@ def shard(k, seed, tier, examples=40):
             camp.harness_error("case crashed the harness: %r %s %s" % (e, traceback.format_exc()[-900:], json.dumps(c)[:500]))
             return
         feats = [f for f in case.get("features", []) if f in ("Parallel", "Map", "Wait", "Retry", "Catch", "task-error", "fanout-with-failing-branch")]
-        camp.case(c, nontrivial=bool(nt), classes=["crash-" + "+".join(sorted(set(x["mode"] for x in cr2))), "crashes-%d" % len(cr2), "type-" + case["type"]] +
+        camp.case(c, nontrivial=bool(nt), classes=["crash-" + "+".join(sorted(set(x["mode"] for x in cr2))), "crashes-%d" % len(cr2), "type-" + case["type"], "store-" + store] +
                   ["f:" + f for f in feats] + (["machine-with-fanout"] if ('"Type": "Parallel"' in json.dumps(case["definition"]) or '"Type": "Map"' in json.dumps(case["definition"])) else ["machine-sequential"]) + (["down>0"] if any(x.get("down") for x in cr2) else []) + (["in-progress"] if nt else ["outside-execution"]),
                   sample=dict(c, baseline=base["outcome"], with_crash=got["outcome"]))
         for b, d in fails:
